@@ -144,8 +144,12 @@ PLANS = {
                 "6 instrument settings, concurrency limit 1-8, on a paused-time current-thread runtime (slow = 10x the timeout in virtual time) or a multi-thread runtime (slow = never completes; ok/error ready at first "
                 "poll); oracles at the close callback: ok + timed_out + failed == items and each counter == the ledger's count (metrics on), error callback exactly once per failed item, every item processed, slow items "
                 "dropped-not-completed under a timeout, in-flight gauge never above the limit; non-trivial = the script has at least one non-ok item",
-                [dict(flavor="fast", lane="free", secs=15)], [dict(flavor="fast", lane="free", secs=200), dict(flavor="checked", lane="free", secs=80)], 1000, 10000,
-                ["on the multi-thread runtime no category depends on wall-clock time (tokio::time::timeout polls the inner future first)"]),
+                [dict(flavor="fast", lane="free", secs=15), dict(flavor="fast", lane="free", secs=8, args=["--set", "workload=wrappers"])],
+                [dict(flavor="fast", lane="free", secs=200), dict(flavor="checked", lane="free", secs=80), dict(flavor="fast", lane="free", secs=100, args=["--set", "workload=wrappers"])], 1000, 10000,
+                ["on the multi-thread runtime no category depends on wall-clock time: ok / error items are ready at their first poll (tokio::time::timeout polls the inner future first), except in the "
+                 "`aged` runs (the first item arrives after the executor has outlived its timeout; items suspend for a few yields), where an item found cancelled is a violation only if it had been in "
+                 "flight for less than the timeout by its own measurement -- an item that really was in flight that long is accounted as a legitimate time-out",
+                 "workload `wrappers`: the limit seen through Uni / Multi (pipelines of C06): at most limit x executors item futures in progress at one instant"]),
     "C12": plan("workload `direct`: the item scripts of C11 through the five StreamExecutor::spawn_* functions -- close callback invoked exactly once, with no item unfinished, status StreamEnded, finish >= start; "
                 "workload (default, drawn per run) `uni`: a Uni with MAX_STREAMS 1/2/4 futures executors (3 channel kinds), user callback exactly once with finished_executors_count == MAX_STREAMS, no stream running, "
                 "no item in progress; `multi`: 2-3 pipelines on 4 Multi kinds, pipeline 0 removed by flush_and_cancel_executor at a random point, the rest closed: every callback exactly once, after the last item "
